@@ -225,6 +225,9 @@ func SplitStatementToPieces(blob string) (pieces []string, err error) {
 				err = tokenizer.errs[0]
 			}
 			return
+		case invalid:
+			// the scanner does not move past a byte it has no token for (e.g. NUL): stop, or this loop never ends
+			return nil, fmt.Errorf("invalid character at offset %d", pos.Offset)
 		default:
 			emptyStatement = false
 		}
@@ -253,7 +256,8 @@ func ParamMarkerOffsets(sql string) (offsets []int, err error) {
 				return nil, fmt.Errorf("parameter marker inside a version comment is not supported")
 			}
 			offsets = append(offsets, pos.Offset)
-		case unicode.ReplacementChar:
+		case unicode.ReplacementChar, invalid:
+			// the scanner does not move past a byte it has no token for (e.g. NUL): stop, or this loop never ends
 			return nil, fmt.Errorf("invalid character at offset %d", pos.Offset)
 		}
 	}
